@@ -123,6 +123,8 @@ func (g *udpGates) hook(point string, obj any) {
 		g.rec.Add(vh.Ev{"e": "LoopSent", "a": a, "ptr": id})
 	case "udp.loop.notice":
 		g.rec.Add(vh.Ev{"e": "Notice", "a": a})
+	case "udp.idle":
+		g.rec.Add(vh.Ev{"e": "Idle", "a": a})
 	}
 	key := point + ":" + vh.ClientOfAddrString(layer4.VerifPacketConnAddr(obj))
 	g.mu.Lock()
@@ -205,6 +207,43 @@ func runUDPCloseRace(idx int, reads int, size int) (*udpTrace, error) {
 		Scen: map[string]any{"schedule": "closerace", "reads": reads, "size": size, "gate_reached": !infeasible, "placed": placed}, Hist: rec.Snapshot()}, nil
 }
 
+// runUDPIdle: the 30 s idle expiry on the real code. Client 1's handler wants three datagrams; it gets one and then
+// nothing for 30 s: the idle timer fires inside Read (the loop is told, Read returns EOF). Client 1's next datagrams
+// must be served by ONE fresh association, also while and after the expired handler runs its deferred Close.
+func runUDPIdle() (*udpTrace, error) {
+	rec := vh.NewRecorder(nil)
+	pc := vh.NewFakePC(rec)
+	g := &udpGates{rec: rec, hold: map[string]chan struct{}{}, reached: map[string]chan struct{}{}}
+	layer4.SetVerifHook(g.hook)
+	defer layer4.SetVerifHook(nil)
+	srv, cancel, err := udpServer(map[string]any{"handler": "verif_h", "k": "udp", "n": 3, "echo": true})
+	if err != nil {
+		return nil, err
+	}
+	defer cancel()
+	vh.RegisterRec(vh.ClientAddr(1).String(), rec)
+	go layer4.VerifServePacket(srv, pc)
+	pc.Inject(1, 1, 64)
+	expired := waitEv(rec, func(e vh.Ev) bool { return e["e"] == "Idle" }, 0, 33*time.Second)
+	pc.Inject(1, 2, 64)
+	time.Sleep(50 * time.Millisecond)
+	pc.Inject(1, 3, 64)
+	time.Sleep(50 * time.Millisecond)
+	pc.Inject(1, 4, 64)
+	last, stable := -1, 0
+	for i := 0; i < 400 && stable < 10; i++ {
+		time.Sleep(5 * time.Millisecond)
+		if n := rec.Len(); n == last {
+			stable++
+		} else {
+			last, stable = n, 0
+		}
+	}
+	pc.Close()
+	time.Sleep(5 * time.Millisecond)
+	return &udpTrace{ID: "udpgate:idle:0", Complete: expired, Scen: map[string]any{"schedule": "idle expiry (30 s)", "expired": expired}, Hist: rec.Snapshot()}, nil
+}
+
 // runUDPMultiClose: n associations, each closed by 8 goroutines at once plus the server's own deferred Close.
 func runUDPMultiClose(n int) error {
 	rec := vh.NewRecorder(nil)
@@ -234,6 +273,7 @@ func init() {
 		sum := fs.String("summary", "", "summary JSON")
 		reps := fs.Int("reps", 30, "repetitions")
 		closes := fs.Int("closes", 20000, "associations in the concurrent-Close stress")
+		idle := fs.Bool("idle", false, "also run the 30 s idle-expiry scenario")
 		fs.Parse(args)
 		lw, err := vh.NewLineWriter(*out)
 		if err != nil {
@@ -254,6 +294,14 @@ func init() {
 			if len(samples) < 1 {
 				samples = append(samples, tr)
 			}
+		}
+		if *idle {
+			fmt.Printf("SCENARIO idle\n")
+			tr, err := runUDPIdle()
+			if err != nil {
+				return err
+			}
+			lw.Write(tr)
 		}
 		// concurrent Close calls on one virtual connection (no gate can sit inside Close's critical section,
 		// so this one is brute force: many associations, 8 closers each)
